@@ -133,6 +133,25 @@ def serialize_manifest(decoded: dict) -> bytes:
     return json.dumps(decoded, sort_keys=True).encode('ascii')
 
 
+OLD_TOP_ORDER = ('stream_name', 'blobs', 'stream_type', 'key', 'suggested_file_name', 'stream_hash')
+OLD_BLOB_ORDER = ('length', 'blob_num', 'blob_hash', 'iv')
+
+
+def serialize_manifest_old_sort(decoded: dict) -> bytes:
+    """Historical serialisation still found on the network (and still writable on request): same JSON
+    text conventions, but the keys in the order the first protocol implementation emitted them -
+    stream_name, blobs, stream_type, key, suggested_file_name, stream_hash; inside a blob length,
+    blob_num, blob_hash (data blobs only), iv.  The order is taken from the published main-net manifest
+    below (selftest reproduces it byte for byte)."""
+    blobs = [{k: b[k] for k in OLD_BLOB_ORDER if k in b} for b in decoded['blobs']]
+    top = {k: (blobs if k == 'blobs' else decoded[k]) for k in OLD_TOP_ORDER}
+    return json.dumps(top).encode('ascii')
+
+
+def serialize(decoded: dict, old_sort: bool = False) -> bytes:
+    return serialize_manifest_old_sort(decoded) if old_sort else serialize_manifest(decoded)
+
+
 # ---------------------------------------------------------------------------------------------
 # reference publisher
 
@@ -351,6 +370,10 @@ def selftest():
     d = parse_manifest(_MAINNET_SD)
     assert stream_hash_of(d) == _MAINNET_STREAM_HASH == d['stream_hash']
     assert inconsistencies(_MAINNET_SD, lenient=False) == []
+    # the main-net manifest is in the historical key order: reproduce it byte for byte
+    assert serialize_manifest_old_sort(d) == _MAINNET_SD
+    assert serialize_manifest(d) != _MAINNET_SD and parse_manifest(serialize_manifest(d)) == d
+    assert sd_hash(serialize(d, old_sort=True)) == _MAINNET_SD_HASH != sd_hash(serialize(d))
     assert inconsistencies(_MAINNET_SD[:-1]) == ['json:not-json']
     assert inconsistencies(_MAINNET_SD.replace(b'"blob_num": 1', b'"blob_num": 2')) == ['numbering', 'stream-hash']
     assert inconsistencies(_MAINNET_SD.replace(b'4f62', b'4F62')) == []
@@ -362,6 +385,8 @@ def selftest():
     m, cts = publish(b'\x01' * 130, 'n.bin', 'n.bin', key, [bytes([i]) * 16 for i in range(9)], 64)
     assert [b['length'] for b in m['blobs']] == [64, 64, 16, 0]
     assert inconsistencies(serialize_manifest(m), lenient=False) == []
+    assert inconsistencies(serialize_manifest_old_sort(m), lenient=False) == []
+    assert parse_manifest(serialize_manifest_old_sort(m)) == m
     store = {sha384_hex(c): c for c in cts}
     assert decrypt_stream(m, store.__getitem__) == b'\x01' * 130
     return True
